@@ -1,8 +1,14 @@
 #!/bin/bash
-# usage: lib/run_seed.sh <seed-id> <property> [extra check args]   -- applies the seed to /repo, runs the check, undoes it
+# usage: lib/run_seed.sh <seed-id> <property> [extra check args]
+# Runs a check against a scratch worktree of /repo with the seeded change applied (VERIF_REPO points the
+# overlay builder at it), then removes the worktree. Equivalent to `git -C /repo apply; ./check; git checkout`,
+# but does not disturb other checks that read /repo at the same time.
 ID=$1; PROP=$2; shift 2
+WT=/tmp/seedrun_${ID}_$$
 cd /verif
-git -C /repo apply /verif/seeded/$ID/patch.diff || { echo "cannot apply"; exit 3; }
-./check $PROP --tier quick "$@" > /verif/seeded/$ID/check_$PROP.log 2>&1; RC=$?
-git -C /repo checkout -- .
-echo "seed=$ID check=$PROP rc=$RC"; grep -E "VIOLATION|INCONCLUSIVE|KNOWN|held" /verif/seeded/$ID/check_$PROP.log | head -5
+git -C /repo worktree add -q --detach $WT HEAD || exit 3
+git -C $WT apply /verif/seeded/$ID/patch.diff || { echo "seed=$ID cannot apply"; git -C /repo worktree remove --force $WT; exit 3; }
+VERIF_REPO=$WT ./check $PROP --tier quick "$@" > /verif/seeded/$ID/check_$PROP.log 2>&1; RC=$?
+git -C /repo worktree remove --force $WT
+echo "seed=$ID check=$PROP rc=$RC $(grep -E '^VIOLATION' /verif/seeded/$ID/check_$PROP.log | head -2 | tr '\n' ' ')"
+grep -E "^INCONCLUSIVE|^  obligation" /verif/seeded/$ID/check_$PROP.log | head -4
